@@ -1,18 +1,33 @@
 #!/bin/sh
-# C16: the same seeded workload in 2 fresh in-process applications and in 3 fresh processes with
-# different GOMAXPROCS; the traces are concatenated into $VERIF_OUT for the C16 runner.
-set -e
+# C16: the same seeded workload in 2 fresh in-process applications and in 4 fresh processes:
+#   proc1  GOMAXPROCS=1  TZ=UTC
+#   proc2  GOMAXPROCS=2  TZ=America/New_York   (the block times cross its daylight-saving switch)
+#   proc8  GOMAXPROCS=8  TZ=Asia/Tokyo
+#   dry    GOMAXPROCS=4  TZ unset, VERIF_C16_DRYRUN=1: every transaction is preceded by discarded dry runs
+# (Go reads TZ once at start-up; the harness embeds time/tzdata, so the zones resolve on any host.)
+# The processes run side by side; the traces are concatenated in a fixed order into $VERIF_OUT for
+# the C16 runner.
 ROOT=${VERIF_ROOT:-$(cd "$(dirname "$0")/.." && pwd)}
 BIN="$ROOT/work/harness.test"
 OUT=${VERIF_OUT:-$ROOT/work/c16.trace}
-TMP="$OUT.part"
 : > "$OUT"
-run() { # label gomaxprocs replays
-  VERIF_OUT="$TMP" VERIF_C16_LABEL="$1" VERIF_C16_REPLAYS="$3" GOMAXPROCS="$2" "$BIN" -test.run '^TestC16$' -test.timeout 1h >/dev/null 2>"$TMP.err" || { cat "$TMP.err" >&2; exit 1; }
-  cat "$TMP" >> "$OUT"
+run() { # label gomaxprocs replays tz dryrun
+  if [ -n "$4" ]; then TZ="$4"; export TZ; else unset TZ; fi
+  VERIF_OUT="$OUT.$1" VERIF_C16_LABEL="$1" VERIF_C16_REPLAYS="$3" VERIF_C16_DRYRUN="$5" GOMAXPROCS="$2" \
+    "$BIN" -test.run '^TestC16$' -test.timeout 1h >/dev/null 2>"$OUT.$1.err"
 }
-run inproc 4 2
-run proc1 1 1
-run proc2 2 1
-run proc8 8 1
-rm -f "$TMP" "$TMP.err"
+LABELS="inproc proc1 proc2 proc8 dry"
+PIDS=""
+(run inproc 4 2 "" 0) & PIDS="$PIDS $!"
+(run proc1 1 1 UTC 0) & PIDS="$PIDS $!"
+(run proc2 2 1 America/New_York 0) & PIDS="$PIDS $!"
+(run proc8 8 1 Asia/Tokyo 0) & PIDS="$PIDS $!"
+(run dry 4 1 "" 1) & PIDS="$PIDS $!"
+rc=0
+for p in $PIDS; do wait "$p" || rc=1; done
+for l in $LABELS; do
+  if [ "$rc" != 0 ]; then cat "$OUT.$l.err" >&2; fi
+  [ -f "$OUT.$l" ] && cat "$OUT.$l" >> "$OUT"
+  rm -f "$OUT.$l" "$OUT.$l.err"
+done
+exit $rc
